@@ -1,6 +1,8 @@
+pub mod backends;
 pub mod conv;
 pub mod engine;
 pub mod gen;
+pub mod matrix;
 pub mod model;
 pub mod rollcheck;
 pub mod sut;
